@@ -157,7 +157,9 @@ func (sr *SelectRelation) Materialize(aggRunner *AggRunner, catDir *catalog.Dire
 				if err2 != nil {
 					return nil, fmt.Errorf("non date predicate found for Epoch")
 				}
-				if sp.ContentsEnum.IsSet(INCLUSIVEMIN) {
+				// bounds are kept in nanoseconds (see AddComparison); Epoch > val starts one tick later
+				val = convertUnitToNanosec(val)
+				if !sp.ContentsEnum.IsSet(INCLUSIVEMIN) {
 					val += 1
 				}
 				q.SetStart(time.Unix(val/nanosec, val%nanosec))
@@ -167,7 +169,8 @@ func (sr *SelectRelation) Materialize(aggRunner *AggRunner, catDir *catalog.Dire
 				if err2 != nil {
 					return nil, fmt.Errorf("non date predicate found for Epoch")
 				}
-				if sp.ContentsEnum.IsSet(INCLUSIVEMAX) {
+				val = convertUnitToNanosec(val)
+				if !sp.ContentsEnum.IsSet(INCLUSIVEMAX) {
 					val -= 1
 				}
 				q.SetEnd(time.Unix(val/nanosec, val%nanosec))
@@ -673,18 +676,14 @@ func (spg StaticPredicateGroup) Merge(sp *StaticPredicate, IsOr bool) error {
 	}
 	tgtSP := spg.Add(sp.Column) // Adds a new SP if not already there
 	if sp.ContentsEnum.IsSet(MINBOUND) {
-		tgtSP.ContentsEnum.AddOption(MINBOUND)
 		if sp.ContentsEnum.IsSet(INCLUSIVEMIN) {
-			tgtSP.ContentsEnum.AddOption(INCLUSIVEMIN)
 			tgtSP.AddComparison(io.GTE, sp.min)
 		} else {
 			tgtSP.AddComparison(io.GT, sp.min)
 		}
 	}
 	if sp.ContentsEnum.IsSet(MAXBOUND) {
-		tgtSP.ContentsEnum.AddOption(MAXBOUND)
 		if sp.ContentsEnum.IsSet(INCLUSIVEMAX) {
-			tgtSP.ContentsEnum.AddOption(INCLUSIVEMAX)
 			tgtSP.AddComparison(io.LTE, sp.max)
 		} else {
 			tgtSP.AddComparison(io.LT, sp.max)
@@ -736,6 +735,8 @@ func (sp *StaticPredicate) SetMin(newMin interface{}, inclusive bool) {
 	sp.ContentsEnum.AddOption(MINBOUND)
 	if inclusive {
 		sp.ContentsEnum.AddOption(INCLUSIVEMIN)
+	} else {
+		sp.ContentsEnum.DelOption(INCLUSIVEMIN)
 	}
 }
 
@@ -744,6 +745,8 @@ func (sp *StaticPredicate) SetMax(newMax interface{}, inclusive bool) {
 	sp.ContentsEnum.AddOption(MAXBOUND)
 	if inclusive {
 		sp.ContentsEnum.AddOption(INCLUSIVEMAX)
+	} else {
+		sp.ContentsEnum.DelOption(INCLUSIVEMAX)
 	}
 }
 
@@ -808,24 +811,84 @@ func (cat *StaticPredicateContentsEnum) AnySet(checkOption ...StaticPredicateCon
 	return false
 }
 
+// compareBounds orders two bounds of this predicate: -1, 0 or +1. Integers are compared
+// as integers (nanosecond epochs do not fit a float64 exactly).
+func compareBounds(a, b interface{}) (int, error) {
+	_, aIsFloat32 := a.(float32)
+	_, aIsFloat64 := a.(float64)
+	_, bIsFloat32 := b.(float32)
+	_, bIsFloat64 := b.(float64)
+	if aIsFloat32 || aIsFloat64 || bIsFloat32 || bIsFloat64 {
+		af, err := io.GetValueAsFloat64(a)
+		if err != nil {
+			return 0, err
+		}
+		bf, err := io.GetValueAsFloat64(b)
+		if err != nil {
+			return 0, err
+		}
+		switch {
+		case af < bf:
+			return -1, nil
+		case af > bf:
+			return 1, nil
+		}
+		return 0, nil
+	}
+	ai, err := io.GetValueAsInt64(a)
+	if err != nil {
+		return 0, err
+	}
+	bi, err := io.GetValueAsInt64(b)
+	if err != nil {
+		return 0, err
+	}
+	switch {
+	case ai < bi:
+		return -1, nil
+	case ai > bi:
+		return 1, nil
+	}
+	return 0, nil
+}
+
 func (sp *StaticPredicate) AddComparison(op io.ComparisonOperatorEnum,
 	value interface{}) error {
+	// Epoch literals may be given in seconds or in nanoseconds: keep every bound in nanoseconds so
+	// that bounds can be compared with each other and pushed down to the IO layer
+	if sp.Column != nil && sp.Column.GetName() == "Epoch" {
+		if v, ok := value.(int64); ok {
+			value = convertUnitToNanosec(v)
+		}
+	}
 	/*
-		Set value of min/max/equal based on the operator
+		Set value of min/max/equal based on the operator.
+		Comparisons on one column are a conjunction: the tighter bound wins.
 	*/
 	switch op {
 	case io.EQ:
+		if sp.ContentsEnum.IsSet(EQUALITY) {
+			if c, err := compareBounds(value, sp.equal); err == nil && c != 0 {
+				// x = a AND x = b with a != b can never hold: make the predicate provably false
+				lo, hi := value, sp.equal
+				if c > 0 {
+					lo, hi = sp.equal, value
+				}
+				sp.SetMin(hi, false)
+				sp.SetMax(lo, false)
+			}
+		}
 		sp.equal = value
 		sp.ContentsEnum.AddOption(EQUALITY)
 	case io.LT, io.LTE:
 		if sp.max == nil {
 			sp.SetMax(value, op == io.LTE)
 		} else {
-			isWithin, err := io.GenericComparison(value, sp.max, op)
+			c, err := compareBounds(value, sp.max)
 			if err != nil {
 				return err
 			}
-			if !isWithin {
+			if c < 0 || (c == 0 && op == io.LT) {
 				sp.SetMax(value, op == io.LTE)
 			}
 		}
@@ -833,11 +896,11 @@ func (sp *StaticPredicate) AddComparison(op io.ComparisonOperatorEnum,
 		if sp.min == nil {
 			sp.SetMin(value, op == io.GTE)
 		} else {
-			isWithin, err := io.GenericComparison(value, sp.min, op)
+			c, err := compareBounds(value, sp.min)
 			if err != nil {
 				return err
 			}
-			if !isWithin {
+			if c > 0 || (c == 0 && op == io.GT) {
 				sp.SetMin(value, op == io.GTE)
 			}
 		}
